@@ -39,7 +39,7 @@ func LoadProgram(repoDir, harnessDir string, pkgDirs []string) (*Program, error)
 	var patterns []string
 	for _, d := range pkgDirs {
 		patterns = append(patterns, "./"+d)
-		files, _ := filepath.Glob(filepath.Join(harnessDir, d, "*.go"))
+		files, _ := filepath.Glob(filepath.Join(harnessDir, harnessSubdir(d), "*.go"))
 		for _, f := range files {
 			b, err := os.ReadFile(f)
 			if err != nil {
@@ -240,4 +240,12 @@ func (p *Program) stubFor(mn string, harnessPkg *ssa.Package) *ssa.Function {
 		}
 	}
 	return nil
+}
+
+// harnessSubdir maps a package directory to its directory under harness/ (the module root is "root").
+func harnessSubdir(d string) string {
+	if d == "." || d == "" {
+		return "root"
+	}
+	return d
 }
